@@ -61,7 +61,17 @@ type rec struct {
 	log  *[]string
 }
 
-func (r *rec) Set(s string) error { *r.log = append(*r.log, "S:"+s); return nil }
+// execHexLog: values are logged hex-encoded (cases whose tokens are not valid UTF-8 and so cannot travel as JSON text)
+var execHexLog bool
+
+func (r *rec) Set(s string) error {
+	if execHexLog {
+		*r.log = append(*r.log, "S:h:"+hex.EncodeToString([]byte(s)))
+	} else {
+		*r.log = append(*r.log, "S:"+s)
+	}
+	return nil
+}
 func (r *rec) String() string     { return "" }
 func (r *rec) Clear()             { *r.log = append(*r.log, "C") }
 func (r *rec) IsBoolFlag() bool   { return r.flag }
@@ -78,6 +88,8 @@ type execCase struct {
 	Argv []string `json:"argv"`
 	// Prerun: argument vectors run first on the SAME application object (outcome ignored)
 	Prerun [][]string `json:"prerun"`
+	// ArgvHex, when given, replaces Argv: hex-encoded byte strings; the values are then logged hex-encoded too
+	ArgvHex []string `json:"argv_hex"`
 }
 
 type execResult struct {
@@ -247,7 +259,17 @@ func runExec(p program, c execCase) (r execResult) {
 		}
 		errBuf.Reset()
 	}
-	if err := app.Run(append([]string{"app"}, c.Argv...)); err != nil {
+	argv := c.Argv
+	if len(c.ArgvHex) > 0 {
+		argv = nil
+		for _, h := range c.ArgvHex {
+			b, _ := hex.DecodeString(h)
+			argv = append(argv, string(b))
+		}
+		execHexLog = true
+		defer func() { execHexLog = false }()
+	}
+	if err := app.Run(append([]string{"app"}, argv...)); err != nil {
 		r.Err = err.Error()
 	}
 	return
